@@ -401,28 +401,50 @@ def validate_repo_tests(ctx):
 
 
 def check_als_func(ctx, rng, quick):
-    """Functional version: shape / ranks, descent from sweep to sweep, restart equivalence, sample order."""
-    for t in range(8 if quick else 60):
+    """Functional version: shape / ranks, descent from sweep to sweep, optimality of some core (the one updated last),
+    restart equivalence, sample order; boxes [a, b] of every kind, with sample points inside and outside the box
+    (the library's model clamps outside points to the boundary, as func_get(skip_out=False) does)."""
+    for t in range(12 if quick else 90):
         d = int(rng.integers(2, 4))
         n = int(rng.integers(2, 5))
         r = int(rng.integers(1, 3))
         m = 40 + 10 * d
-        X = rng.uniform(-1, 1, size=(m, d))
+        box = [(-1., 1.), (-1., 1.), (0., 2.), (-3., -0.5), (0.1, 0.7)][t % 5]
+        a, b = box
+        X = rng.uniform(a, b, size=(m, d))
+        if t % 2:
+            X = rng.uniform(a - 0.3 * (b - a), b + 0.3 * (b - a), size=(m, d))       # a third of the points outside
         y = np.prod(np.cos(X + 0.3), axis=1) + X[:, 0] + 0.01 * rng.normal(size=m)
         A0 = teneva.rand([n] * d, r, seed=int(rng.integers(1 << 30)))
         lamb = float(rng.choice([1e-3, 1e-1, 1.]))
-        H = [teneva.func_basis(X[:, k], n).T for k in range(d)]        # m x n, Chebyshev basis on [-1, 1]
+        Xs = np.clip((2. * X - (b + a)) / (b - a), -1., 1.)
+        H = [teneva.func_basis(Xs[:, k], n).T for k in range(d)]        # m x n, Chebyshev basis at the scaled, clamped points
+        kw = {} if box == (-1., 1.) and t % 5 == 0 else dict(a=a, b=b)
+
+        def interf(A, k):
+            L = np.ones((m, 1))
+            for c in range(k):
+                L = np.einsum('sa,sn,anb->sb', L, H[c], A[c])
+            Rr = np.ones((m, 1))
+            for c in range(d - 1, k, -1):
+                Rr = np.einsum('anb,sn,sb->sa', A[c], H[c], Rr)
+            return L, Rr
 
         def J(A):
-            Q = np.einsum('sn,anb->sab', H[0], A[0])[:, 0, :]
-            for k in range(1, d):
-                Q = np.einsum('sa,sn,anb->sb', Q, H[k], A[k])
-            return float(np.sum((Q[:, 0] - y) ** 2) + lamb * sum(np.sum(G * G) for G in A))
+            L, _ = interf(A, d)
+            return float(np.sum((L[:, 0] - y) ** 2) + lamb * sum(np.sum(G * G) for G in A))
+
+        def relgrad(A, k):
+            L, Rr = interf(A, k)
+            pred = np.einsum('sa,sn,anb,sb->s', L, H[k], A[k], Rr)
+            g1 = np.einsum('s,sa,sn,sb->anb', pred - y, L, H[k], Rr)
+            g = g1 + lamb * A[k]
+            scale = np.linalg.norm(np.einsum('s,sa,sn,sb->anb', np.abs(pred) + np.abs(y), np.abs(L), np.abs(H[k]), np.abs(Rr))) + lamb * np.linalg.norm(A[k]) + 1e-300
+            return float(np.linalg.norm(g) / scale)
         prev = J(A0)
-        Aprev = A0
-        ok_desc = True
+        ok_desc, ok_opt = True, True
         for s in range(1, 4):
-            A = teneva.als_func(X, y, A0, nswp=s, e=None, lamb=lamb, info={})
+            A = teneva.als_func(X, y, A0, nswp=s, e=None, lamb=lamb, info={}, **kw)
             if not (F.is_wellformed(A, [n] * d) and [G.shape for G in A] == [G.shape for G in A0]):
                 ctx.violation('als_func:shape', 'als_func changed the shape / ranks of the initial approximation: %s -> %s'
                               % ([G.shape for G in A0], [getattr(G, 'shape', None) for G in A]))
@@ -431,19 +453,23 @@ def check_als_func(ctx, rng, quick):
             cur = J(A)
             if cur > prev * (1 + 1e-8) + 1e-10:
                 ok_desc = False
+            if min(relgrad(A, k) for k in range(d)) > 1e-7:
+                ok_opt = False
             prev = cur
         ctx.case(key=('als_func', t, ctx.seed), nontrivial=True)
         if ok_desc is None:
             continue
-        ctx.check(ok_desc, 'als_func:descent', 'als_func: regularised objective increased from one sweep to the next (n=%d d=%d r=%d lamb=%g)' % (n, d, r, lamb))
-        A2 = teneva.als_func(X, y, teneva.als_func(X, y, A0, nswp=1, e=None, lamb=lamb, info={}), nswp=2, e=None, lamb=lamb, info={})
-        A3 = teneva.als_func(X, y, A0, nswp=3, e=None, lamb=lamb, info={})
-        ctx.check(close_tt(A2, A3, 1e-7), 'als_func:restart', 'als_func: 1+2 sweeps differ from 3 sweeps')
+        what = '(n=%d d=%d r=%d lamb=%g box=%s outside=%s)' % (n, d, r, lamb, box, bool(t % 2))
+        ctx.check(ok_desc, 'als_func:descent', 'als_func: regularised objective increased from one sweep to the next ' + what)
+        ctx.check(ok_opt, 'als_func:last-core', 'als_func: no core is at the minimiser of the regularised objective given the others after a sweep ' + what)
+        A2 = teneva.als_func(X, y, teneva.als_func(X, y, A0, nswp=1, e=None, lamb=lamb, info={}, **kw), nswp=2, e=None, lamb=lamb, info={}, **kw)
+        A3 = teneva.als_func(X, y, A0, nswp=3, e=None, lamb=lamb, info={}, **kw)
+        ctx.check(close_tt(A2, A3, 1e-7), 'als_func:restart', 'als_func: 1+2 sweeps differ from 3 sweeps ' + what)
         p = rng.permutation(m)
-        A4 = teneva.als_func(X[p], y[p], A0, nswp=3, e=None, lamb=lamb, info={})
-        ctx.check(close_tt(A4, A3, 1e-6), 'als_func:order', 'als_func: result depends on the order of the samples')
+        A4 = teneva.als_func(X[p], y[p], A0, nswp=3, e=None, lamb=lamb, info={}, **kw)
+        ctx.check(close_tt(A4, A3, 1e-6), 'als_func:order', 'als_func: result depends on the order of the samples ' + what)
         info = {}
-        teneva.als_func(X, y, A0, nswp=2, info=info, lamb=lamb)
+        teneva.als_func(X, y, A0, nswp=2, info=info, lamb=lamb, **kw)
         ctx.check(info.get('stop') in ('nswp', 'e', 'e_vld') and info.get('nswp') in (1, 2), 'als_func:info', 'als_func info: %s' % info)
 
 
